@@ -46,7 +46,7 @@ def cases(tier, seed, shard, nshards):
     for seq in tokens.sequences(ALPHA, _L(tier), shard, nshards):
         yield {"v": "".join(seq)}
     r = rng_for(seed, shard, "c14")
-    for _ in range(tier_pick(tier, 60000, 1500000) // nshards):
+    for _ in range(tier_pick(tier, 40000, 1500000) // nshards):
         n = r.choice([1, 2, 2, 3, 5, 8])
         yield {"v": r.choice([" and ", " AND ", "\nand ", "  and\t"]).join(rand_person(r) for _ in range(n))}
 
@@ -108,7 +108,7 @@ def check(case, ctx):
         out.append(Violation("not-inverse", f"C14:function:not-inverse:{why}", dict(value=v, merged=v2, before=np_list(P), after=np_list(P2))))
     # document level (sampled; the middlewares delegate to the functions above)
     doc_ok = not any(w.endswith("\\") for p in pieces for s in R.tokenize(p) for w in s) and "@" not in v and "\\{" not in v and "\\}" not in v
-    if not out and doc_ok and (ctx.cases % 12 == 0 or (len(v2) > 70 and ctx.cases % 5 == 0)):
+    if not out and doc_ok and (ctx.cases % 12 == 0 or (len(v2) > 70 and ctx.cases % 9 == 0)):
         for field in ("author", "editor", "translator")[ctx.cases % 3:ctx.cases % 3 + 1]:
             for inplace in (True, False):
                 doc = "@string{s = {x}}\n%% free\n@article{k,\n title = {A {T}itle},\n %s = {%s},\n year = 1999\n}\n@comment{c}\n" % (field, v)
